@@ -602,3 +602,36 @@ def solve(script, timeout=60):
     if len(set(defin)) == 1 and all(x[0] in ("inconclusive",) or x[0] == defin[0] for x in out.values()) and len(defin) == 2:
         return defin[0], out
     return "inconclusive", out
+
+
+def solve_batch(smt, goals, timeout=120):
+    """Decide many goals over ONE script (declarations and assertions of `smt` as they are now) with one z3 and one
+    cvc5 process (push / assert / check-sat / pop per goal).  Returns a list of 'sat' | 'unsat' | 'inconclusive', one per
+    goal; a goal is definite only if both solvers give the same definite answer.  Any solver error makes the whole
+    batch fall back to one `solve` call per goal."""
+    if not goals:
+        return []
+    ints = sorted(set(re.findall(r"\(declare-const (k_int_\d+) V\)", "\n".join(smt.decls))))
+    distinct = ["(assert (distinct %s))" % " ".join(ints)] if len(ints) > 1 else []
+    head = smt.decls + distinct + ["(assert %s)" % a for a in smt.asserts]
+    body = []
+    for g in goals:
+        body += ["(push 1)", "(assert %s)" % g, "(check-sat)", "(pop 1)"]
+    script = "\n".join(head + body) + "\n"
+    answers = {}
+    for name, cmd in (("z3", ["z3", "-in", "-T:%d" % timeout]), ("cvc5", ["cvc5", "--lang", "smt2", "--incremental", "--tlimit-per=%d" % (20 * 1000)])):
+        try:
+            p = subprocess.run(cmd, input=script, stdout=subprocess.PIPE, stderr=subprocess.STDOUT, text=True, timeout=timeout + 30)
+            lines = [l.strip() for l in p.stdout.splitlines() if l.strip()]
+        except Exception as e:  # noqa
+            lines = ["(error %s)" % e]
+        if any("(error" in l for l in lines) or len([l for l in lines if l in ("sat", "unsat", "unknown")]) != len(goals):
+            answers = None
+            break
+        answers[name] = [l for l in lines if l in ("sat", "unsat", "unknown")]
+    if answers is None:
+        return [solve(smt.script(g))[0] for g in goals]
+    out = []
+    for a, b in zip(answers["z3"], answers["cvc5"]):
+        out.append(a if a == b and a in ("sat", "unsat") else "inconclusive")
+    return out
